@@ -113,6 +113,6 @@ def Generate(rng, cid):
     query = [s.name for s in g.sigs if not s.inline] + [
         m['name'] for m in makes] + [t['name'] for ts in twins.values()
                                      for t in ts]
-    return {'id': cid, 'prog': prog, 'query': query,
+    return {'id': cid, 'prog': prog, 'query': query, 'stages': True,
             'meta': {'features': sorted(feats)}}
   raise RuntimeError('no functor program')
